@@ -8,7 +8,7 @@ from props import c01, c02, c08
 
 ID = "C09"
 LEVEL = "proof"
-THEOREMS = ["C09_emit_wf_pil", "C09_wf_check_sound", "C09_wf_check2_sound", "C09_compiled_struct_balanced", "C09_domain_struct_balanced", "C09_accepted_wf_pil", "C09_reserved_names", "C09_wf_pil_documents_load", "C09_loaded_system_wf_pil", "C09_names_okb_sound"]
+THEOREMS = ["C09_emit_wf_pil", "C09_wf_check_sound", "C09_wf_check2_sound", "C09_compiled_struct_balanced", "C09_domain_struct_balanced", "C09_accepted_wf_pil", "C09_reserved_names", "C09_wf_pil_documents_load", "C09_loaded_system_wf_pil", "C09_names_okb_sound", "C09_fixed_component_wf_pil", "C09_fixed_system_wf_pil"]
 TRUSTED = c01.TRUSTED
 ASSUMPTIONS = c01.ASSUMPTIONS
 
